@@ -166,6 +166,24 @@ def uses_clean(F, body, uses, depth=3):
     or is a hand-off to a callee parameter for which the same holds. returns list of offending uses"""
     dom = body.dominators()
     resets = [u for u in uses if u.kind == "reset"]
+    # handing the buffer to a private helper that resets it first, on every path, is a reset at that point too (for the uses that follow)
+    if depth > 0:
+        for u in uses:
+            c = getattr(u, "call", None)
+            if u.kind == "reset" or c is None:
+                continue
+            subs = [sb for sb in local_callee_bodies(F, c) if sb.crate == CR]
+            ok_all = bool(subs)
+            for sb in subs:
+                pu = param_uses(sb, u.argidx + 1)
+                prs = [x for x in pu if x.kind == "reset"]
+                sdom = sb.dominators()
+                if not prs or not sb.must_pass([x.bb for x in prs]) or any(
+                        x.kind != "reset" and not any(pos_dominates(sb, sdom, r.pos(), x.pos()) for r in prs) for x in pu):
+                    ok_all = False
+            if ok_all:
+                v = Use(body, u.bb, u.idx, "reset")
+                resets.append(v)
     bad = []
     for u in uses:
         if u.kind == "reset":
